@@ -1,8 +1,8 @@
 package main
 
 import (
-	"sort"
 	"go/types"
+	"sort"
 	"strings"
 
 	"golang.org/x/tools/go/ssa"
@@ -466,8 +466,19 @@ func checkKeyGenerators(c *Ctx) {
 				if i == len(r.Results)-1 && isErrorType(rv.Type()) {
 					continue
 				}
+				w.Focus(gkp)
 				for o := range w.Origins(rv) {
 					bad := strings.HasPrefix(o, "global:"+RepoMod) || strings.HasPrefix(o, "call:os.") || strings.HasPrefix(o, "p")
+					if strings.HasPrefix(o, "p") && len(o) > 1 && o[1] >= '0' && o[1] <= '9' && !strings.Contains(o, ".") {
+						// a parameter that selects the kind or size of key (an enumeration, a bit length, a curve) is not
+						// key material
+						if pi := atoi(o[1:]); pi < len(fn.Params) {
+							pt := fn.Params[pi].Type()
+							if _, isBasic := pt.Underlying().(*types.Basic); isBasic || strings.HasSuffix(pt.String(), "crypto/elliptic.Curve") {
+								bad = false
+							}
+						}
+					}
 					if bad {
 						c.Bad("R3.freshkey", shortFn(fn)+"|key material origin "+o, w.Pos(r.Pos()), "generated key material depends on "+o+" (a stored or supplied key instead of a fresh one)")
 					}
@@ -475,5 +486,5 @@ func checkKeyGenerators(c *Ctx) {
 			}
 		}
 	}
-	c.Floor("R3.freshkey", nGen, 6, "key generator calls")
+	c.Floor("R3.freshkey", nGen, 3, "key generator calls")
 }
